@@ -146,6 +146,29 @@ static size_t ws_drain(struct ws_sess *s)
 	return got;
 }
 
+/* The backend wait is wrapped (checks.d: "wrap": ["epoll_pwait2", "epoll_wait"]) only to learn how
+ * many fds it reported: a pass whose wait reports nothing, runs no harness callback and leaves no
+ * active event cannot have changed anything, so the session is quiescent.  (Every syscall costs
+ * ~15 us in this sandbox; the earlier "two idle passes + read + FIONREAD" pump was 40 % slower.) */
+#include <sys/epoll.h>
+static int ws_last_nready = -1;
+int __real_epoll_pwait2(int epfd, struct epoll_event *ev, int n, const struct timespec *ts, const sigset_t *ss);
+int __wrap_epoll_pwait2(int epfd, struct epoll_event *ev, int n, const struct timespec *ts, const sigset_t *ss);
+int __wrap_epoll_pwait2(int epfd, struct epoll_event *ev, int n, const struct timespec *ts, const sigset_t *ss)
+{
+	int r = __real_epoll_pwait2(epfd, ev, n, ts, ss);
+	ws_last_nready = r;
+	return r;
+}
+int __real_epoll_wait(int epfd, struct epoll_event *ev, int n, int timeout);
+int __wrap_epoll_wait(int epfd, struct epoll_event *ev, int n, int timeout);
+int __wrap_epoll_wait(int epfd, struct epoll_event *ev, int n, int timeout)
+{
+	int r = __real_epoll_wait(epfd, ev, n, timeout);
+	ws_last_nready = r;
+	return r;
+}
+
 static int ws_server_input_pending(struct ws_sess *s)
 {
 	int n = 0;
@@ -159,10 +182,17 @@ static int ws_pump(struct ws_sess *s)
 	int idle = 0; long iters = 0;
 	while (idle < 2) {
 		long a0 = s->activity;
-		size_t got;
+		ws_last_nready = -1;
 		event_base_loop(s->base, EVLOOP_NONBLOCK);
-		got = ws_drain(s);
-		if (got || s->activity != a0 || (!s->rx_eof && ws_server_input_pending(s))) idle = 0; else idle++;
+		if (ws_last_nready == 0 && s->activity == a0 &&
+		    event_base_get_num_events(s->base, EVENT_BASE_COUNT_ACTIVE) == 0)
+			break;                                  /* the wait saw nothing: quiescent */
+		if (ws_last_nready < 0) {
+			/* the wait was not observed (other backend): fall back to two idle passes */
+			size_t got = ws_drain(s);
+			if (got || s->activity != a0 || (!s->rx_eof && ws_server_input_pending(s))) idle = 0; else idle++;
+		} else
+			ws_drain(s);
 		if (++iters > 2000000) { mc_fail("harness:ws-no-quiescence", "%s: loop did not become quiescent", s->tag); return -1; }
 	}
 	return 0;
